@@ -38,7 +38,7 @@ open Goyang.Spec.Identity (Reach closure Graph graph Derives Acyclic AllBasesRes
   OneStatementPerVertex refTarget names Vertex)
 open Goyang.Lemmas.Identity (LinkOK Hyp RegOK resolveIdentities_graph vtxLt_iff vtxLt_strictTotal
   sorted_unique graph_facts GraphFacts derives_left_vertex resolve_agrees buildDict_spec
-  closure_spec walk_nil)
+  closure_spec walk_nil pairwise_before regOK_of_entries linkOK_of_all acyclic_of_rank)
 
 /-- The include statements of every part of the schema are linked (see the header). -/
 abbrev Linked (r : Registry) (lk : Link) : Prop := LinkOK r lk
@@ -65,9 +65,6 @@ theorem walk_terminates_and_is_reachability {α : Type} [DecidableEq α] (succ :
   walk_nil succ U hU fuel r hr hf
 
 /-! ### the lists -/
-
-theorem pairwise_before {l : List Vtx} (h : l.Pairwise (fun a b => vtxLt a b = true)) : l.Pairwise Before :=
-  h.imp (fun hab => (vtxLt_iff _ _).mp hab)
 
 /-- There is only one list that satisfies the specification. -/
 theorem values_unique (G : Graph) (i : Vertex) (l1 l2 : List Vertex)
@@ -257,36 +254,33 @@ loaded in the order b, sb, a, sa.  All hypotheses of the theorems hold of it, an
 `a:top ↦ [b:bottom, a:deep, a:left, b:right]` under two different map orders.  A second example (a
 two-cycle through both modules plus a dangling base) shows the hypotheses of `identity_errors`. -/
 
-namespace Example
-open Goyang.Lemmas.Identity (regOK_of_entries linkOK_of_all acyclic_of_rank)
+def exStmt (kw arg : String) (subs : List Stmt := []) : Stmt := .mk kw true arg "x.yang" 1 1 subs
 
-def st (kw arg : String) (subs : List Stmt := []) : Stmt := .mk kw true arg "x.yang" 1 1 subs
+def exModA : Stmt := exStmt "module" "a" [exStmt "namespace" "urn:a", exStmt "prefix" "a", exStmt "include" "sa",
+  exStmt "identity" "top", exStmt "identity" "left" [exStmt "base" "top"]]
+def exSubSA : Stmt := exStmt "submodule" "sa" [exStmt "belongs-to" "a" [exStmt "prefix" "a"], exStmt "include" "sb"]
+def exSubSB : Stmt := exStmt "submodule" "sb" [exStmt "belongs-to" "a" [exStmt "prefix" "x"],
+  exStmt "identity" "deep" [exStmt "base" "x:left"]]
+def exTypeL : Stmt := exStmt "type" "identityref" [exStmt "base" "pa:top"]
+def exModB : Stmt := exStmt "module" "b" [exStmt "namespace" "urn:b", exStmt "prefix" "b", exStmt "import" "a" [exStmt "prefix" "pa"],
+  exStmt "identity" "right" [exStmt "base" "pa:top"],
+  exStmt "identity" "bottom" [exStmt "base" "pa:left", exStmt "base" "right"],
+  exStmt "leaf" "l" [exTypeL]]
 
-def modA : Stmt := st "module" "a" [st "namespace" "urn:a", st "prefix" "a", st "include" "sa",
-  st "identity" "top", st "identity" "left" [st "base" "top"]]
-def subSA : Stmt := st "submodule" "sa" [st "belongs-to" "a" [st "prefix" "a"], st "include" "sb"]
-def subSB : Stmt := st "submodule" "sb" [st "belongs-to" "a" [st "prefix" "x"],
-  st "identity" "deep" [st "base" "x:left"]]
-def tyL : Stmt := st "type" "identityref" [st "base" "pa:top"]
-def modB : Stmt := st "module" "b" [st "namespace" "urn:b", st "prefix" "b", st "import" "a" [st "prefix" "pa"],
-  st "identity" "right" [st "base" "pa:top"],
-  st "identity" "bottom" [st "base" "pa:left", st "base" "right"],
-  st "leaf" "l" [tyL]]
-
-def load (files : List SrcFile) : Registry :=
+def exLoad (files : List SrcFile) : Registry :=
   match loadAll files with
   | .ok r => r
   | .error _ => {}
 
-def R : Registry := load [⟨"b", [modB]⟩, ⟨"sb", [subSB]⟩, ⟨"a", [modA]⟩, ⟨"sa", [subSA]⟩]
+def exR : Registry := exLoad [⟨"b", [exModB]⟩, ⟨"sb", [exSubSB]⟩, ⟨"a", [exModA]⟩, ⟨"sa", [exSubSA]⟩]
 
-def link (r : Registry) : Link :=
+def exLink (r : Registry) : Link :=
   match linkAll (Oracle.ofNat 0) r with
   | some (lk, _) => lk
   | none => {}
 
-/-- The graph the specification reads off `R`. -/
-def GR : Graph :=
+/-- The graph the specification reads off `exR`. -/
+def exG : Graph :=
   { verts := [("b", "right"), ("b", "bottom"), ("a", "top"), ("a", "left"), ("a", "deep")]
     edges := [(("b", "right"), ("a", "top")), (("b", "bottom"), ("a", "left")), (("b", "bottom"), ("b", "right")),
       (("a", "left"), ("a", "top")), (("a", "deep"), ("a", "left"))]
@@ -294,63 +288,67 @@ def GR : Graph :=
 
 deriving instance DecidableEq for Graph
 
-example : graph R = some GR := by decide
-example : (linkAll (Oracle.ofNat 0) R).map (·.2) = some [] := by decide
-theorem linked_R : Linked R (link R) := linkOK_of_all (by decide)
-theorem wellFormed_R : WellFormed R :=
+example : graph exR = some exG := by decide
+example : (linkAll (Oracle.ofNat 0) exR).map (·.2) = some [] := by decide
+theorem example_linked : Linked exR (exLink exR) := linkOK_of_all (by decide)
+theorem example_wellFormed : WellFormed exR :=
   ⟨regOK_of_entries (by decide), by decide, fun G hG => by
-    have : graph R = some GR := by decide
+    have : graph exR = some exG := by decide
     rw [this] at hG
     cases hG
-    show GR.verts.Nodup
+    show exG.verts.Nodup
     decide⟩
-theorem acyclic_GR : Acyclic GR :=
+theorem example_acyclic : Acyclic exG :=
   acyclic_of_rank (fun v => if v.2 == "top" then 0 else if v.2 == "left" then 1 else if v.2 == "bottom" then 3 else 2)
     (by decide)
-example : AllBasesResolve GR := ⟨rfl, rfl⟩
+example : AllBasesResolve exG := ⟨rfl, rfl⟩
 example : (Oracle.ofNat 0).order (α := Nat) 3 [1, 2, 3] ≠ (Oracle.ofNat 5).order 3 [1, 2, 3] := by decide
 
 /-- What the model computes for the example, under two map orders. -/
-example : ((resolveIdentities (Oracle.ofNat 0) R (link R) (fun _ => [])).map fun res =>
-      (res.vals ("a", "top"), res.vals ("a", "left"), res.vals ("b", "right"), res.vals ("b", "bottom"), res.errs.length)) =
-    some ([("b", "bottom"), ("a", "deep"), ("a", "left"), ("b", "right")],
-      [("b", "bottom"), ("a", "deep")], [("b", "bottom")], [], 0) := by decide
-example : ((resolveIdentities (Oracle.ofNat 5) R (link R) (fun _ => [])).map fun res =>
-      (res.vals ("a", "top"), res.vals ("a", "left"), res.vals ("b", "right"), res.vals ("b", "bottom"), res.errs.length)) =
-    some ([("b", "bottom"), ("a", "deep"), ("a", "left"), ("b", "right")],
-      [("b", "bottom"), ("a", "deep")], [("b", "bottom")], [], 0) := by decide
-/-- The identityref leaf of module `b` points at `a:top`. -/
-example : ((resolveIdentities (Oracle.ofNat 0) R (link R) (fun _ => [])).bind fun res =>
-      (R.byId 0).map fun b => (identityrefBase R res.dict b tyL).toOption.map (·.vtx)) = some (some ("a", "top")) := by
+example : ((resolveIdentities (Oracle.ofNat 0) exR (exLink exR) (fun _ => [])).map fun res =>
+      (res.vals ("a", "top"), res.vals ("a", "left"))) =
+    some ([("b", "bottom"), ("a", "deep"), ("a", "left"), ("b", "right")], [("b", "bottom"), ("a", "deep")]) := by
   decide
-example : (R.byId 0).map (fun b => refTarget R GR b "pa:top") = some (some ("a", "top")) := by decide
+example : ((resolveIdentities (Oracle.ofNat 0) exR (exLink exR) (fun _ => [])).map fun res =>
+      (res.vals ("b", "right"), res.vals ("b", "bottom"), res.errs.length)) =
+    some ([("b", "bottom")], [], 0) := by decide
+example : ((resolveIdentities (Oracle.ofNat 5) exR (exLink exR) (fun _ => [])).map fun res =>
+      (res.vals ("a", "top"), res.vals ("a", "left"))) =
+    some ([("b", "bottom"), ("a", "deep"), ("a", "left"), ("b", "right")], [("b", "bottom"), ("a", "deep")]) := by
+  decide
+example : ((resolveIdentities (Oracle.ofNat 5) exR (exLink exR) (fun _ => [])).map fun res =>
+      (res.vals ("b", "right"), res.vals ("b", "bottom"), res.errs.length)) =
+    some ([("b", "bottom")], [], 0) := by decide
+/-- The identityref leaf of module `b` points at `a:top`. -/
+example : ((resolveIdentities (Oracle.ofNat 0) exR (exLink exR) (fun _ => [])).bind fun res =>
+      (exR.byId 0).map fun b => (identityrefBase exR res.dict b exTypeL).toOption.map (·.vtx)) = some (some ("a", "top")) := by
+  decide
+example : (exR.byId 0).map (fun b => refTarget exR exG b "pa:top") = some (some ("a", "top")) := by decide
 
 /-- A two-cycle through both modules, and a dangling base. -/
-def modC : Stmt := st "module" "c" [st "namespace" "urn:c", st "prefix" "c", st "import" "d" [st "prefix" "d"],
-  st "identity" "x" [st "base" "d:y"], st "identity" "z" [st "base" "nosuch"]]
-def modD : Stmt := st "module" "d" [st "namespace" "urn:d", st "prefix" "d", st "import" "c" [st "prefix" "c"],
-  st "identity" "y" [st "base" "c:x"]]
-def R2 : Registry := load [⟨"c", [modC]⟩, ⟨"d", [modD]⟩]
-def GR2 : Graph :=
+def exModC : Stmt := exStmt "module" "c" [exStmt "namespace" "urn:c", exStmt "prefix" "c", exStmt "import" "d" [exStmt "prefix" "d"],
+  exStmt "identity" "x" [exStmt "base" "d:y"], exStmt "identity" "z" [exStmt "base" "nosuch"]]
+def exModD : Stmt := exStmt "module" "d" [exStmt "namespace" "urn:d", exStmt "prefix" "d", exStmt "import" "c" [exStmt "prefix" "c"],
+  exStmt "identity" "y" [exStmt "base" "c:x"]]
+def exR2 : Registry := exLoad [⟨"c", [exModC]⟩, ⟨"d", [exModD]⟩]
+def exG2 : Graph :=
   { verts := [("c", "x"), ("c", "z"), ("d", "y")]
     edges := [(("c", "x"), ("d", "y")), (("d", "y"), ("c", "x"))]
     dangling := [(("c", "z"), "nosuch")], orphans := [], missing := [] }
-example : graph R2 = some GR2 := by decide
-example : Linked R2 (link R2) := linkOK_of_all (by decide)
-example : WellFormed R2 :=
+example : graph exR2 = some exG2 := by decide
+example : Linked exR2 (exLink exR2) := linkOK_of_all (by decide)
+example : WellFormed exR2 :=
   ⟨regOK_of_entries (by decide), by decide, fun G hG => by
-    have : graph R2 = some GR2 := by decide
+    have : graph exR2 = some exG2 := by decide
     rw [this] at hG
     cases hG
-    show GR2.verts.Nodup
+    show exG2.verts.Nodup
     decide⟩
-example : GR2.dangling ≠ [] := by decide
-example : ¬ Acyclic GR2 := fun h =>
+example : exG2.dangling ≠ [] := by decide
+example : ¬ Acyclic exG2 := fun h =>
   h ("c", "x") (Derives.step (k := ("d", "y")) (by decide) (Derives.base (by decide)))
-example : ((resolveIdentities (Oracle.ofNat 0) R2 (link R2) (fun _ => [])).map fun res =>
+example : ((resolveIdentities (Oracle.ofNat 0) exR2 (exLink exR2) (fun _ => [])).map fun res =>
       (res.vals ("c", "x"), res.errs.map (·.cls))) =
     some ([("c", "x"), ("d", "y")], ["identity-base-local", "cycle", "cycle"]) := by decide
-
-end Example
 
 end Goyang.Props.C11
